@@ -81,7 +81,7 @@ fn base(method: &str, prob: Problem, x0: f64, xend: f64) -> Case {
     }
     Case {
         id: 0, api: "solve_ivp".into(), method: method.into(), problem: prob, x0, xend, y0,
-        rtol: vec![1e-3], atol: vec![1e-6], first_step: None, max_step: None, max_steps: None, min_step: None, t_eval: None, dense: false,
+        rtol: vec![1e-3], atol: vec![1e-6], tol_vec: false, dir_code: 0, first_step: None, max_step: None, max_steps: None, min_step: None, t_eval: None, dense: false,
         events: vec![], jac: "fd".into(), jac_storage: "full".into(), mass_storage: "identity".into(), mass: "none".into(),
         script: vec![], tags: vec![], budget: None, low_nodense: false, map: "id".into(),
     }
@@ -194,6 +194,11 @@ fn fam_core(o: &mut Out, quick: bool, rng: &mut Rng) {
             let mut c = base(m, Problem::new("decay", 1e-3), *x0, *xend); c.max_step = Some(f64::INFINITY); essential.push((c, "slow+max_step_inf"));
             let mut c = mk(); c.rtol = vec![1e-8]; c.atol = vec![1e-8]; c.first_step = Some(span * 2.5); c.max_step = Some(f64::INFINITY); essential.push((c, "tight+first_step>span"));
             let mut c = mk(); c.max_step = Some(span.abs() * 0.3); essential.push((c, "max_step_0.3"));
+            if *m != "RK4" {
+                // the budget runs out before any step is accepted (oversized first step at a tight tolerance)
+                let mut c = mk(); c.rtol = vec![1e-9]; c.atol = vec![1e-12]; c.first_step = Some(span); c.max_steps = Some(1); c.dense = true;
+                essential.push((c, "no_accepted_step+dense"));
+            }
             for (mut c, tag) in essential.drain(..) {
                 c.tags = vec![tag.to_string()];
                 o.run(c);
@@ -234,6 +239,20 @@ fn fam_core(o: &mut Out, quick: bool, rng: &mut Rng) {
         c.tags = vec!["newton_stress_discontinuous".into()];
         o.run(c);
     }
+    // a jump in the stiffness of a nonlinear law inside the interval: Newton fails on a Jacobian that was kept
+    for m in ["RADAU", "BDF"] {
+        for refl in [false, true] {
+            for (jac, tol) in [("user", 1e-7), ("fd", 1e-7), ("user", 1e-4)] {
+                let mut c = base(m, Problem::new("kjump3", 1.0), 0.0, if refl { -2.0 } else { 2.0 });
+                c.problem.reflect = refl;
+                c.jac = jac.into();
+                c.rtol = vec![tol];
+                c.atol = vec![tol];
+                c.tags = vec!["newton_fail_kept_jacobian".into()];
+                o.run(c);
+            }
+        }
+    }
     // step budgets running out inside a run of rejections; lower step bound (min_step) with a failing right-hand side
     for m in ["RADAU", "BDF"] {
         for ms in [1usize, 2, 3, 6] {
@@ -265,6 +284,10 @@ fn fam_core(o: &mut Out, quick: bool, rng: &mut Rng) {
     for m in METHODS {
         let mut c = base(m, Problem::new("decay", 1.0), 2.0, 2.0); c.dense = true; c.tags = vec!["zero_interval".into()]; o.run(c);
         let mut c = base(m, Problem::new("decay", 1.0), 2.0, 2.0); c.t_eval = Some(vec![2.0, 2.0]); c.tags = vec!["zero_interval+t_eval".into()]; o.run(c);
+        // far from the origin x0 + 1e-15 == x0
+        for x0 in [50.0, -1.0e3, 1.0e6] {
+            let mut c = base(m, Problem::new("lin2", 0.0), x0, x0); c.dense = true; c.tags = vec!["zero_interval_far".into()]; o.run(c);
+        }
     }
     // empty state vector: nothing to integrate
     for m in METHODS {
@@ -616,6 +639,52 @@ fn fam_budget(o: &mut Out, quick: bool, rng: &mut Rng) {
     }
 }
 
+/// C11: attempts rejected before the second accepted step count against the budget like any other
+fn fam_budget_early_rejections(o: &mut Out, quick: bool) {
+    for m in ADAPTIVE {
+        for (x0, xend) in [(0.0, 1.0), (1.0, -1.0)] {
+            let mut c = base(m, Problem::new("sho", 0.0), x0, xend);
+            c.rtol = vec![1e-8];
+            c.atol = vec![1e-10];
+            c.first_step = Some(xend - x0);
+            c.tags = vec!["early_rejections+unbudgeted".into()];
+            let a = o.run(c.clone());
+            for k in if quick { vec![1usize, 2, 4] } else { (1usize..=8).collect() } {
+                let mut v = c.clone();
+                v.max_steps = Some(k);
+                v.tags = vec!["early_rejections+budget".into()];
+                let b = o.run(v);
+                o.pair("C11", "budget_prefix", &a, &b, "budgeted run is a prefix of the unbudgeted run");
+            }
+        }
+    }
+}
+
+/// C10: a terminal event in every accepted step of a run in turn (for all event positions relative to the step grid)
+fn fam_terminal_sweep(o: &mut Out, quick: bool) {
+    for m in METHODS {
+        for (x0, xend) in [(0.0, 6.0), (6.0, 0.0)] {
+            let mut c = base(m, Problem::new("logistic", 0.0), x0, xend);
+            c.rtol = vec![1e-6];
+            c.atol = vec![1e-9];
+            c.jac = "user".into();
+            if m == "RK4" { c.first_step = Some((xend - x0) / 24.0); }
+            c.tags = vec!["grid_run".into()];
+            let a = o.run(c.clone());
+            let grid: Vec<f64> = match &a.sol { Some(s) => s.t.clone(), None => continue };
+            let implicit = m == "RADAU" || m == "BDF";
+            let stride = if quick && !implicit { 2 } else { 1 };
+            let cap = if quick { 48 } else { 200 };
+            for k in (0..grid.len().saturating_sub(1)).step_by(stride).take(cap) {
+                let mut v = c.clone();
+                v.events = vec![EventSpec { kind: "t-c".into(), a: grid[k] + 0.5 * (grid[k + 1] - grid[k]), dir: "All".into(), term: 1 }];
+                v.tags = vec!["terminal_sweep".into()];
+                o.run(v);
+            }
+        }
+    }
+}
+
 // ---------------------------------------------------------------------------------------- terminal
 /// C10: everything reported before a terminal stop equals the run without the terminal flag.
 fn fam_terminal(o: &mut Out, quick: bool, rng: &mut Rng) {
@@ -732,6 +801,26 @@ fn fam_symmetry(o: &mut Out, quick: bool, rng: &mut Rng) {
             v.tags = vec!["reflect+max_step".into()];
             let b = o.run(v);
             o.pair("C13", "equal", &a, &b, "time reflection with a binding max_step");
+        }
+    }
+    // one-equation nonlinear systems with the implicit methods: a scalar tolerance and the one-element vector
+    for m in ["RADAU", "BDF"] {
+        for (p, x0, xend) in [(Problem::new("logistic", 0.0), 0.0, 2.0), (Problem::new("logistic", 0.0), 1.0, -0.5), (Problem::new("cube", 0.0), 0.0, 2.0), (Problem::new("tan", 0.0), 0.0, 1.2)] {
+            for tol in if quick { vec![1e-7] } else { vec![1e-5, 1e-7, 1e-10] } {
+                let mut c = base(m, p.clone(), x0, xend);
+                c.rtol = vec![tol];
+                c.atol = vec![tol * 1e-2];
+                c.jac = "user".into();
+                c.tags = vec!["reference_n1".into()];
+                let a = o.run(c.clone());
+                let mut v = c.clone();
+                v.rtol = vec![tol; 1];
+                v.atol = vec![tol * 1e-2; 1];
+                v.tags = vec!["vector_tol_n1".into()];
+                v.tol_vec = true;
+                let b = o.run(v);
+                o.pair("C13", "equal", &a, &b, "scalar tolerance as constant vector, one equation");
+            }
         }
     }
     // a long, stability-limited explicit run (stiffness detection is reached) and its reflection
@@ -972,6 +1061,21 @@ fn fam_teval(o: &mut Out, quick: bool, rng: &mut Rng) {
     }
 }
 
+/// C05: the degenerate interval with the requested time repeated
+fn fam_teval_zero(o: &mut Out) {
+    for m in METHODS {
+        for x0 in [2.0, -50.0] {
+            for dense in [false, true] {
+                let mut c = base(m, Problem::new("lin2", 0.0), x0, x0);
+                c.t_eval = Some(vec![x0, x0, x0]);
+                c.dense = dense;
+                c.tags = vec!["zero_interval+t_eval3".into()];
+                o.run(c);
+            }
+        }
+    }
+}
+
 // ------------------------------------------------------------------------------------------ events
 /// C08 / C09 (recorded part): state-dependent and time-dependent event functions on real steppers.
 fn fam_events(o: &mut Out, quick: bool, rng: &mut Rng) {
@@ -1014,6 +1118,46 @@ fn fam_events(o: &mut Out, quick: bool, rng: &mut Rng) {
     }
 }
 
+/// C08: event functions of small magnitude (state of size 2^-20): located to the root finder's accuracy in t
+fn fam_events_small(o: &mut Out) {
+    let f = (2.0f64).powi(-20);
+    for m in METHODS {
+        for (x0, xend, a) in [(0.0, 2.0, 0.5), (1.0, -1.0, 3.0)] {
+            let mut c = base(m, Problem::new("decay", 1.0), x0, xend);
+            c.y0 = vec![f];
+            c.rtol = vec![1e-8];
+            c.atol = vec![1e-16];
+            c.dense = true;
+            if m == "RK4" { c.first_step = Some((xend - x0) / 60.0); }
+            c.events = vec![EventSpec { kind: "y0-a".into(), a: a * f, dir: "All".into(), term: 0 },
+                            EventSpec { kind: "y0-a".into(), a: a * f * 1.25, dir: if xend > x0 { "Neg".into() } else { "Pos".into() }, term: 0 }];
+            c.tags = vec!["events_small_scale".into()];
+            o.run(c);
+        }
+    }
+}
+
+/// C08: direction filters given as integer codes (any positive code = rising, any negative = falling, 0 = both)
+fn fam_events_codes(o: &mut Out) {
+    for m in METHODS {
+        for (x0, xend) in [(0.0, 7.0), (7.0, 0.0)] {
+            for code in [1, 2, 5] {
+                let mut c = base(m, Problem::new("sho", 0.0), x0, xend);
+                c.rtol = vec![1e-5];
+                c.atol = vec![1e-8];
+                c.jac = "user".into();
+                if m == "RK4" { c.first_step = Some((xend - x0) / 60.0); }
+                c.dir_code = code;
+                c.events = vec![EventSpec { kind: "y0-a".into(), a: 0.25, dir: "Pos".into(), term: 0 },
+                                EventSpec { kind: "y1".into(), a: 0.0, dir: "Neg".into(), term: 0 },
+                                EventSpec { kind: "y0-a".into(), a: -0.5, dir: "All".into(), term: 0 }];
+                c.tags = vec![format!("direction_code{}", code)];
+                o.run(c);
+            }
+        }
+    }
+}
+
 fn main() {
     silence_panics();
     let args: Vec<String> = std::env::args().collect();
@@ -1044,12 +1188,12 @@ fn main() {
             "adversarial" => fam_adversarial(&mut o, quick, &mut rng),
             "lowlevel" => fam_lowlevel(&mut o, quick, &mut rng),
             "observer" => fam_observer(&mut o, quick, &mut rng),
-            "budget" => fam_budget(&mut o, quick, &mut rng),
-            "terminal" => { fam_terminal(&mut o, quick, &mut rng); fam_terminal_last(&mut o, quick); }
+            "budget" => { fam_budget(&mut o, quick, &mut rng); fam_budget_early_rejections(&mut o, quick); }
+            "terminal" => { fam_terminal(&mut o, quick, &mut rng); fam_terminal_last(&mut o, quick); fam_terminal_sweep(&mut o, quick); }
             "symmetry" => fam_symmetry(&mut o, quick, &mut rng),
             "storage" => fam_storage(&mut o, quick, &mut rng),
-            "teval" => fam_teval(&mut o, quick, &mut rng),
-            "events" => fam_events(&mut o, quick, &mut rng),
+            "teval" => { fam_teval(&mut o, quick, &mut rng); fam_teval_zero(&mut o); }
+            "events" => { fam_events(&mut o, quick, &mut rng); fam_events_small(&mut o); fam_events_codes(&mut o); }
             _ => { eprintln!("unknown family {}", fam); std::process::exit(2); }
         }
     }
